@@ -25,6 +25,16 @@ Ltac run_refines :=
       exists f, g; split; [vm_compute; reflexivity|split; [vm_compute; reflexivity|split; vm_compute; reflexivity]] end end
   end.
 
+Example refines_ex_router : refines_ex ex_router 6 6.
+Proof. run_refines. Qed.
+Example refines_ex_splits : refines_ex ex_splits 9 9.
+Proof. run_refines. Qed.
+Example refines_ex_merged : refines_ex ex_merged 3 3.
+Proof. run_refines. Qed.
+Example refines_ex_given : refines_ex ex_given 3 3.
+Proof. run_refines. Qed.
+Example refines_ex_start_block : refines_ex ex_start_block 3 3.
+Proof. run_refines. Qed.
 Example refines_ex_implicit : refines_ex ex_implicit 6 5.
 Proof. run_refines. Qed.
 Example refines_ex_goto_cycle : refines_ex ex_goto_cycle 3 3.
